@@ -13,11 +13,12 @@ import math
 from fractions import Fraction
 
 from harness import core
+from harness import mc_gen
 from harness import mc_util as mu
 
-GEN = []
-EXTRACT_FILES = ["X02"]
-DRIVERS = ["x02"]
+GEN = list(mc_gen.GEN)
+EXTRACT_FILES = ["X02"] + mc_gen.EXTRACT
+DRIVERS = ["x02"] + mc_gen.DRIVER
 RULE = ("random image pairs 3..14 x 4..18 (mono / 2-3 bands with band selection; random, few-grey-level and "
         "nearly flat radiometry; right = shifted left + noise or independent), masks with valid/nodata/invalid "
         "cells (40% next to a border), intervals: one point, all negative, all positive, wider than the image, "
@@ -37,8 +38,9 @@ ASSUMES = [
     "exactly; the 1e-15 relative variance guard of compute_std_raster coincides with 'variance = 0' on "
     "integer radiometry",
 ]
+ASSUMES += mc_gen.ASSUMES
 TRUSTED = ["numpy slicing / as_strided / np.sum / nancumsum semantics as modelled in Model/MatchingCost.v "
-           "(validated by the correspondence on every run)"]
+           "(validated by the correspondence on every run)"] + mc_gen.TRUSTED
 
 
 def wire(case):
@@ -149,9 +151,17 @@ SUPPORTED = list(mu.MEASURES)
 def run(ctx):
     quick = ctx.tier == "quick"
     model = core.Model("x02")
+    ctx.gen_obligations = list(mc_gen.OBLIGATIONS)
+    if ctx.replay_case is not None and ctx.replay_case.get("kind") == "point_interval":
+        mc_gen.replay_one(ctx, ctx.replay_case)
+        return
+    if ctx.replay_case is not None and ctx.replay_case.get("kind") in ("statements", "min_max"):
+        mc_gen.run(ctx)        # statement-level cases are cheap: the whole generated-code correspondence is re-run
+        return
     if ctx.replay_case is not None:
         cases = [ctx.replay_case]
     else:
+        mc_gen.run(ctx)
         cases = gen_cases(ctx, 260 if quick else 4000)
     for start in range(0, len(cases), 200):
         run_chunk(ctx, model, cases[start:start + 200])
